@@ -21,9 +21,9 @@ taskTime / deferred queue / trigger):
              {install at T, install after D, suspend, resume, re-install,
              advance D by run_once, advance D by run} on 4 tasks, up to renaming
              of tasks (first-use order); every time collides (T = base + D).
-             Complete up to length 5 (quick) / 6 (thorough); of length 6 / 7 the
-             histories that end in an advance (the others have the firing log of
-             their prefix, which is enumerated)
+             Quick: complete up to length 5.  Thorough: complete up to length 6;
+             of length 7 the histories that end in an advance (the others have
+             the firing log of their prefix, which is enumerated)
   random   : histories of length 200 over 6 tasks of mixed classes (raising
              bodies, deferring bodies, recurring with refused parameters, ...)
   grid     : recurring interval x offset x phase grid incl. 0.1, 0.3, 1/3 s,
@@ -50,8 +50,8 @@ from . import core
 LEAN_TARGETS = ["BacVerif.Props.C14", "drv_c14"]
 LEANCHECKER = ["BacVerif.Props.C14"]
 LEVEL = "proof"
-RULE = ("dfs: all histories up to length 5 (quick) / 6 (thorough) plus those of length 6 / 7 that end in an "
-        "advance (the rest share the firing log of their enumerated prefix) over 5 task operations x "
+RULE = ("dfs: all histories up to length 5 (quick) / 6 (thorough; plus those of length 7 that end in an "
+        "advance, the rest share the firing log of their enumerated prefix) over 5 task operations x "
         "4 tasks (canonical task naming) + 2 ways to advance time, colliding times; random: length-200 "
         "histories over 12 operation kinds; grid: recurring interval/offset/phase/clock-magnitude "
         "grid incl. 0.1, 0.3, 1/3 s; deferred: all raising subsets of batches <= 6 in 4 shapes x 2 "
@@ -146,11 +146,15 @@ RAISED = [("schedule missing", "scheduleMissing"), ("task time is None", "taskTi
           ("interval unset", "intervalUnset"), ("interval must be greater", "intervalNotPositive")]
 
 
-def raised_kind(e):
+def raised_kind(e, pre=False):
     if isinstance(e, RuntimeError):
-        for frag, k in RAISED:
+        for frag, k in RAISED + [("no task manager", "noTaskManager")]:
             if frag in str(e):
                 return k
+    if pre and isinstance(e, ValueError):         # _unscheduled_tasks.remove(task): not listed
+        return "notInList"
+    if pre and isinstance(e, AttributeError):     # None.resume_task
+        return "noManagerAttr"
     return "python:" + type(e).__name__
 
 
@@ -193,6 +197,7 @@ class Impl:
         self.overrun = False
         self.snaps = {}
         self.fn_ids, self.fn_keep = {}, []
+        self.pre = False
 
     # ---- scripted environment -------------------------------------------
     def make_task(self, idx, spec):
@@ -332,7 +337,40 @@ class Impl:
     def sec(self, ticks):
         return float(Fraction(ticks, self.tpu * 1000000))
 
+    def adopt(self, tm):
+        """a TaskManager created by the code under test (TaskManager() in a history that began
+        without one, or the first core.run_once()) becomes the manager of the rig: its real
+        trigger pipe is replaced by the flag object, which inherits whether the pipe was set"""
+        flag = False
+        tr = getattr(tm, "trigger", None)
+        if tr is not None and not isinstance(tr, Trigger):
+            try:
+                flag = bool(tr.isSet())
+            finally:
+                tr.close()
+        self.trigger = Trigger()
+        self.trigger.flag = flag
+        tm.trigger = self.trigger
+        self.tm = self.vt.tm = tm
+        self.bcore.taskManager = tm
+        self.pre = False
+
+    def forget_manager(self):
+        """the process has no task manager (yet): what a fresh interpreter looks like"""
+        bt = self.btask
+        bt._task_manager = None
+        for cls in type(self.tm).__mro__:
+            if "_singleton_instance" in cls.__dict__:
+                cls._singleton_instance = None
+        del bt._unscheduled_tasks[:]
+        self.bcore.taskManager = None
+        self.tm = None
+        self.pre = True
+        self.seq0 = 0
+
     def reset(self, req):
+        if self.tm is None:                       # the previous history never created a manager
+            self.adopt(self.btask.TaskManager())
         self.vt.reset(start=0.0)
         # installation numbers are reported relative to the counter's value at reset
         self.seq0 = next(copy.copy(self.tm.counter))
@@ -343,6 +381,8 @@ class Impl:
         self.out, self.calls, self.subs = [], [], []
         self.fn_ids, self.fn_keep = {}, []
         self.snaps = {}
+        if req.get("premgr"):
+            self.forget_manager()
 
     def save(self, k):
         self.snaps[k] = (self.vt.now, list(self.tm.tasks), copy.copy(self.tm.counter),
@@ -366,8 +406,9 @@ class Impl:
         self.calls, self.subs = list(calls), list(subs)
 
     def digest(self):
-        heap = sorted(self.tm.tasks, key=lambda e: (e[0], e[1]))
-        return {"heap": [[us(w), n - self.seq0, t._c14_idx] for (w, n, t) in heap],
+        heap = sorted(self.tm.tasks, key=lambda e: (e[0], e[1])) if self.tm is not None else []
+        return {"unsched": [t._c14_idx for t in self.btask._unscheduled_tasks] if self.pre else None,
+                "heap": [[us(w), n - self.seq0, t._c14_idx] for (w, n, t) in heap],
                 "flags": [bool(t.isScheduled) for t in self.tasks],
                 "ttime": [us(t.taskTime) for t in self.tasks],
                 "trig": bool(self.trigger.flag),
@@ -427,10 +468,20 @@ class Impl:
                         self.tm.process_task(task)
                     except Exception:
                         self.out.append(["terr", task._c14_idx])
+            elif op == "mk":
+                tm = self.btask.TaskManager()
+                if self.pre:
+                    self.adopt(tm)
+                elif tm is not self.tm:
+                    self.out.append(["second-manager"])
             elif op == "once":
                 vt.now = vt.now + self.sec(req["d"])
                 self.overrun = False
-                self.bcore.run_once()
+                try:
+                    self.bcore.run_once()
+                finally:
+                    if self.pre and self.btask._task_manager is not None:
+                        self.adopt(self.btask._task_manager)     # created by run_once itself
                 aux = 0 if self.overrun else 1
             elif op == "run":
                 aux = self.run_until(vt.now + self.sec(req["d"]), req["fuel"])
@@ -446,12 +497,12 @@ class Impl:
             self.out.append(["overrun"])
             aux = 0
         except Exception as e:
-            self.out.append(["raised", raised_kind(e)])
+            self.out.append(["raised", raised_kind(e, self.pre)])
         if aux == 0 and op in ("once", "run", "jump"):
             Impl.overruns += 1
         tm = self.tm
         rep = {"r": "ok", "out": self.out, "now": us(vt.now),
-               "deadline": us(tm.tasks[0][0]) if tm.tasks else None,
+               "deadline": us(tm.tasks[0][0]) if tm is not None and tm.tasks else None,
                "aux": aux, "digest": self.digest()}
         if "to" in req:
             self.save(req["to"])
@@ -478,6 +529,11 @@ class Oracle:
         # runs what was deferred since the batch was detached, before the rest of the batch):
         # exactly-once is then checked on multisets, the order by the lockstep with the model
         self.pumps = '"pump"' in json.dumps(scn)
+        # a history that begins before any task manager exists: what is installed then is armed
+        # when the manager appears — each task at its LAST time, in the order of the LAST installs
+        self.pre = bool(scn.get("premgr"))
+        self.lenient = bool(scn.get("lenient"))
+        self.pre_armed = {}               # tid -> order of its last install while there was no manager
 
     def save(self, k):
         self.snaps[k] = ({t: list(v) for t, v in self.pending.items()}, list(self.tt),
@@ -517,7 +573,41 @@ class Oracle:
             fail("clock", "clock went backwards")
         t = req.get("t")
         dg = rep["digest"]
-        if op == "at":
+        if self.pre and op in ("mk", "once"):
+            # the manager appears (TaskManager(), or the first run_once())
+            self.pre = False
+            if self.lenient:
+                # (one suspend of a task installed twice leaves it listed: take the schedule as it is)
+                for due, _n, tid in sorted(dg["heap"], key=lambda e: e[1]):
+                    self.arm(tid, due)        # (lenient histories always create the manager with "mk")
+            else:
+                at = now0 if op == "mk" else now0 + req["d"] // self.tpu
+                for tid in sorted(self.pre_armed, key=self.pre_armed.get):
+                    if self.tasks[tid]["rec"]:
+                        self.arm(tid, self.grid_next(tid, at))
+                        self.pending[tid][2] = False
+                    else:
+                        self.arm(tid, self.tt[tid])
+        elif self.pre:
+            raised = any(e[0] == "raised" for e in rep["out"])
+            if op == "at":
+                self.tt[t] = req["when"] // self.tpu
+                self.pre_armed[t] = self.inst; self.inst += 1
+            elif op == "bare" and self.tt[t] is not None:
+                self.pre_armed[t] = self.inst; self.inst += 1
+            elif op == "rec":
+                if req["iv"] is not None:
+                    self.iv[t] = req["iv"]
+                if req["off"] is not None:
+                    self.off[t] = req["off"]
+                if self.iv[t]:
+                    self.pre_armed[t] = self.inst; self.inst += 1
+            elif op == "suspend":
+                self.pre_armed.pop(t, None)
+            if op in ("at", "bare", "rec") and raised and t in self.pre_armed and op != "bare" and \
+                    not (op == "rec" and not self.iv[t]):
+                fail("pre-manager", "install before the manager exists raised %r" % (rep["out"],))
+        elif op == "at":
             self.arm(t, req["when"] // self.tpu)
         elif op == "after":
             self.arm(t, now0 + req["d"] // self.tpu)
@@ -669,6 +759,8 @@ def snap_tol(a, b):
 
 def requests_of(scn):
     reqs = [{"op": "reset", "tpu": scn.get("tpu", 1), "tasks": scn["tasks"]}]
+    if scn.get("premgr"):
+        reqs[0]["premgr"] = True
     if scn.get("base"):
         reqs.append({"op": "tick", "d": scn["base"]})
     return reqs + scn["ops"]
@@ -865,6 +957,26 @@ def shard_dfs(ctx, spec):
                 if ndis <= 2:
                     ctx.disagree("dfs", dict(scn, ops=path_of(reqs, parents, i), stream="dfs"), a, b)
     ctx.sample({"stream": "dfs", "L": L, "first_prefix": prefixes[0][0] if prefixes else None})
+
+
+def dfs_specs(ctx, L, last_adv=False):
+    """the shard specs of the dfs stream (for the common pool of `run`)"""
+    depth = 2 if L <= 6 else 3
+    pre = dfs_prefixes(depth)
+    nshard = 64 if L > 6 else 32
+    specs = [(L, pre[i::nshard], last_adv) for i in range(nshard) if pre[i::nshard]]
+    # shorter histories are the inner nodes of the subtrees, except those shorter than the
+    # prefixes: one extra subtree rooted at the empty history, cut at `depth`
+    specs.append((depth, [([], 0)]))
+    ctx.extra["dfs_length"] = L
+    ctx.extra["dfs_last_operation_of_longest_histories"] = "advance only" if last_adv else "any"
+    return specs
+
+
+def shard_any(ctx, spec):
+    """one pool for all streams: (shard function name, its spec)"""
+    fn, sub = spec
+    globals()[fn](ctx, sub)
 
 
 def run_dfs(ctx, L, last_adv=False):
@@ -1295,9 +1407,87 @@ def pump_scenarios(ctx):
     return scns
 
 
+def premgr_scenarios(ctx):
+    """histories that begin BEFORE any TaskManager exists (tasks scheduled at import time): every
+    sequence of up to 4 (quick) / 5 (thorough) operations over {install at D, install at 2D,
+    re-install as is, suspend} x 3 tasks (canonical task naming), then the manager is created —
+    by TaskManager(), by TaskManager() twice, or by the first core.run_once() — and time passes.
+    Expected: every task armed at its LAST time, in the order of the LAST installs.  lenient: one
+    suspend of a task listed twice leaves it listed (transcribed, not asserted by the oracle)."""
+    L = 4 if ctx.quick else 5
+    tasks = [dict(PLAIN, kind=k) for k in (0, 2, 5)]
+    tails = [
+        [{"op": "mk"}, {"op": "once", "d": D}, {"op": "once", "d": D}],
+        [{"op": "once", "d": D}, {"op": "once", "d": D}],
+        [{"op": "mk"}, {"op": "mk"}, {"op": "run", "d": D, "fuel": FUEL}, {"op": "run", "d": D, "fuel": FUEL}],
+        [{"op": "tick", "d": D}, {"op": "mk"}, {"op": "at", "t": 0, "when": 2 * D}, {"op": "once", "d": D}, {"op": "once", "d": D}],
+    ]
+    scns = []
+
+    def rec(ops, k, lst, lenient):
+        if ops:
+            tail = tails[len(scns) % len(tails)]
+            if lenient and tail[0]["op"] != "mk" and tail[1]["op"] != "mk":
+                tail = tails[0]
+            scn = {"tpu": 1, "premgr": True, "tasks": tasks, "ops": ops + [dict(o) for o in tail]}
+            if lenient:
+                scn["lenient"] = True
+            scns.append(scn)
+        if len(ops) == L:
+            return
+        for t in range(min(k + 1, 3)):
+            k2 = max(k, t + 1)
+            for o in ({"op": "at", "t": t, "when": D}, {"op": "at", "t": t, "when": 2 * D},
+                      {"op": "bare", "t": t}, {"op": "suspend", "t": t}):
+                lst2, len2 = lst, lenient
+                if o["op"] == "at" or (o["op"] == "bare" and any(p["op"] == "at" and p["t"] == t for p in ops)):
+                    lst2 = lst + [t]
+                elif o["op"] == "suspend" and t in lst:
+                    len2 = lenient or lst.count(t) >= 2
+                    i = lst.index(t)
+                    lst2 = lst[:i] + lst[i + 1:]
+                rec(ops + [o], k2, lst2, len2)
+    rec([], 0, [], False)
+    # with a recurring task, deferred functions, the calls that are refused without a manager
+    rng = ctx.sub_rng("c14-premgr")
+    tasks2 = [dict(PLAIN, kind=1), dict(PLAIN, kind=3), {"rec": True, "raises": False, "defers": [], "kind": 0}]
+    for n in range(120 if ctx.quick else 1500):
+        ops, lst, lenient, ids = [], [], False, 1
+        for _ in range(rng.randrange(2, 9)):
+            r = rng.random()
+            t = rng.randrange(2)
+            if r < 0.35:
+                ops.append({"op": "at", "t": t, "when": rng.choice([D, 2 * D])}); lst.append(t)
+            elif r < 0.45:
+                ops.append({"op": "bare", "t": t})
+                if any(p["op"] == "at" and p["t"] == t for p in ops):
+                    lst.append(t)
+            elif r < 0.60:
+                t = rng.randrange(3)
+                ops.append({"op": "suspend", "t": t})
+                if t in lst:
+                    lenient = lenient or lst.count(t) >= 2
+                    lst.remove(t)
+            elif r < 0.72:
+                ops.append({"op": "rec", "t": 2, "iv": 300000, "off": rng.choice([None, 50000])}); lst.append(2)
+            elif r < 0.78:
+                ops.append({"op": rng.choice(["after", "resume"]), "t": t, "d": D})
+            elif r < 0.90:
+                ops.append({"op": "defer", "f": {"id": ids, "r": rng.random() < 0.3, "k": [], "kind": rng.randrange(KINDS)}}); ids += 1
+            else:
+                ops.append({"op": "tick", "d": rng.choice([G, D])})
+        tail = tails[0] if lenient else tails[n % 3]
+        scn = {"tpu": 1, "premgr": True, "tasks": tasks2, "ops": ops + [dict(o) for o in tail] + [{"op": "once", "d": D}]}
+        if lenient:
+            scn["lenient"] = True
+        scns.append(scn)
+    return scns
+
+
 def shard_reentrant(ctx, spec):
     which, i, n = spec
-    scns = {"reentrant": reentrant_scenarios, "stop": stop_scenarios, "pump": pump_scenarios}[which](ctx)
+    scns = {"reentrant": reentrant_scenarios, "stop": stop_scenarios, "pump": pump_scenarios,
+            "premgr": premgr_scenarios}[which](ctx)
     run_scenarios(ctx, which, scns[i::n])
 
 
@@ -1307,7 +1497,61 @@ def shard_reentrant(ctx, spec):
 LONGRUN_OPS = 90000
 
 
-def longrun_child(seed, n_ops, mode):
+MANAGERS = ["plain", "sub1", "sub2", "sub3", "mix1", "mix2", "mix3"]
+
+
+def manager_class(btask, variant):
+    """the class of the process's task manager: TaskManager itself, or derived from it over one,
+    two, three levels, with and without mix-ins (a derived manager that adds tracing, a clock,
+    statistics ... is what applications and the test-suite's TimeMachine do)"""
+    TM = btask.TaskManager
+
+    class Mixin(object):
+        def stats(self):
+            return len(self.tasks)
+
+    if variant == "plain":
+        return TM
+
+    class Level1(TM):
+        def __init__(self):
+            TM.__init__(self)
+            self.level = 1
+    if variant == "sub1":
+        return Level1
+
+    class Level2(Level1):
+        def process_task(self, task):
+            Level1.process_task(self, task)
+    if variant == "sub2":
+        return Level2
+
+    class Level3(Level2):
+        def __init__(self):
+            Level2.__init__(self)
+            self.level = 3
+    if variant == "sub3":
+        return Level3
+
+    class Mixed1(Mixin, TM):
+        pass
+    if variant == "mix1":
+        return Mixed1
+
+    class Mixed2(Mixin, Level1):
+        pass
+    if variant == "mix2":
+        return Mixed2
+
+    class Mixed3(Level2, Mixin):
+        def __init__(self):
+            Level2.__init__(self)
+    if variant == "mix3":
+        return Mixed3
+    raise core.Infra("bad manager variant %r" % (variant,))
+
+
+def longrun_child(seed, n_ops, mode, variant="plain", timing="before"):
     """Runs in a FRESH interpreter (python -m harness.c14 longrun ...): nothing of the rig above
     is installed — the TaskManager singleton is created by bacpypes itself with its real
     _Trigger (a pipe), only bacpypes.task._time is the virtual clock.  mode "once": driven by
@@ -1320,10 +1564,31 @@ def longrun_child(seed, n_ops, mode):
     core.bind_repo()
     import bacpypes.task as btask
     import bacpypes.core as bcore
+    import gc
     clock = [1000.0]
     btask._time = lambda: clock[0]
-    tm = btask.TaskManager()
-    real_trigger = type(tm.trigger).__name__ if tm.trigger is not None else None
+    cls = manager_class(btask, variant)
+    made = []
+
+    def make_manager():
+        made.append(cls())
+        return made[0]
+
+    def identity():
+        """the instance that was created is THE task manager, and the only one"""
+        tm0 = made[0]
+        if btask._task_manager is not tm0:
+            return "task._task_manager is %r, not the %s that was created" % (btask._task_manager, cls.__name__)
+        if btask.TaskManager() is not tm0 or cls() is not tm0:
+            return "TaskManager() / %s() does not return the instance that was created" % cls.__name__
+        n = sum(1 for o in gc.get_objects() if isinstance(o, btask.TaskManager))
+        if n != 1:
+            return "%d task managers exist" % n
+        return None
+    # timing "after": the first installs happen BEFORE the manager is created
+    tm = make_manager() if timing == "before" else None
+    PRE = 0 if timing == "before" else 12
+    real_trigger = None
     bcore.run._exception = bcore.run_once._exception = lambda *a: errors.append(repr(sys.exc_info()[1]))
     rng = random.Random(seed)
     fired, errors, calls = [], [], []
@@ -1354,9 +1619,31 @@ def longrun_child(seed, n_ops, mode):
         stop_task.install_task(when=clock[0])
         bcore.run(spin=0.001, sigterm=None, sigusr1=None)
 
+    # watchdog: a pass that never returns (the loop waiting on a manager nobody feeds) must not
+    # cost the whole budget of the check
+    import signal
+    state = {"i": 0, "what": "start"}
+    limit = 10 + n_ops // 4000
+
+    def on_alarm(*_a):
+        print(json.dumps({"ok": False, "op": state["i"], "trigger": real_trigger, "sets": sets,
+                          "what": "operation %d (%s) had not returned when the history's time limit of "
+                                  "%d s ran out: the loop does not come to rest" % (state["i"], state["what"], limit)}))
+        sys.stdout.flush()
+        os._exit(0)
+    signal.signal(signal.SIGALRM, on_alarm)
+    signal.alarm(limit)
     for i in range(n_ops):
         r = rng.random()
         k = rng.randrange(K)
+        state["i"] = i
+        if i < PRE:
+            r = 0.0                       # installs only while there is no manager, distinct tasks
+            k = i % K
+        elif tm is None:
+            tm = make_manager()
+        if i == PRE:
+            real_trigger = type(tm.trigger).__name__ if tm.trigger is not None else None
         try:
             if r < 0.45:
                 due = clock[0] + rng.randrange(4) * STEP
@@ -1377,6 +1664,7 @@ def longrun_child(seed, n_ops, mode):
                 bcore.deferred(calls.append, n)
             else:
                 what = "clock += %r; %s()" % (STEP, "run_once" if mode == "once" else "run")
+                state["what"] = what
                 clock[0] += STEP
                 nf = len(fired)
                 one_pass()
@@ -1394,8 +1682,10 @@ def longrun_child(seed, n_ops, mode):
                 checked = nsub
                 if errors:
                     fail = "logged by the loop: %s" % errors[0]
+                if fail is None and (len(fired) == len(new) or i % 64 == 0):
+                    fail = identity()     # after the first pass, and now and then
             # the schedule after every operation: one entry per task, present iff pending
-            if fail is None and (len(tm.tasks) != len(pending) or
+            if fail is None and tm is not None and (len(tm.tasks) != len(pending) or
                                  (i % 16 == 0 and sorted(t.k for _w, _n, t in tm.tasks) != sorted(pending))):
                 fail = "heap holds %r, expected %r" % (sorted(t.k for _w, _n, t in tm.tasks), sorted(pending))
         except Exception as e:
@@ -1405,16 +1695,23 @@ def longrun_child(seed, n_ops, mode):
                                                               "so far): %s" % (i, what, sets, fail),
                               "trigger": real_trigger, "sets": sets}))
             return
+    fail = identity()
+    if fail:
+        print(json.dumps({"ok": False, "op": n_ops, "what": "after the history: " + fail,
+                          "trigger": real_trigger, "sets": sets}))
+        return
     print(json.dumps({"ok": True, "ops": n_ops, "sets": sets, "fired": len(fired), "called": len(calls),
                       "trigger": real_trigger}))
 
 
-def run_longrun(ctx, seed, n_ops, mode):
+def run_longrun(ctx, seed, n_ops, mode, variant="plain", timing="before"):
     import subprocess
-    case = {"stream": "longrun", "seed": seed, "n_ops": n_ops, "mode": mode}
+    case = {"stream": "longrun", "seed": seed, "n_ops": n_ops, "mode": mode, "manager": variant,
+            "created": timing + " the first install"}
     env = dict(os.environ, VERIF_REPO=core.REPO, PYTHONDONTWRITEBYTECODE="1")
     try:
-        p = subprocess.run([sys.executable, "-m", "harness.c14", "longrun", str(seed), str(n_ops), mode],
+        p = subprocess.run([sys.executable, "-m", "harness.c14", "longrun", str(seed), str(n_ops), mode,
+                            variant, timing],
                            cwd=core.VERIF, env=env, stdout=subprocess.PIPE, stderr=subprocess.PIPE, timeout=300)
     except subprocess.TimeoutExpired:
         ctx.fail("longrun", case, "the long history did not finish in 300 s")
@@ -1427,17 +1724,16 @@ def run_longrun(ctx, seed, n_ops, mode):
     if res.get("trigger") is None:
         ctx.notes.append("longrun: this platform has no TaskManager trigger")
     if res["ok"]:
-        ctx.count("longrun", ("ok", mode), n=n_ops)
-        ctx.sample({"stream": "longrun", "mode": mode, "ops": n_ops, "trigger_sets": res["sets"],
+        ctx.count("longrun", ("ok", mode, variant, timing), n=n_ops)
+        ctx.sample({"stream": "longrun", "mode": mode, "manager": variant, "ops": n_ops, "trigger_sets": res["sets"],
                     "fired": res["fired"], "called": res["called"], "trigger": res["trigger"]})
     else:
-        ctx.count("longrun", ("fail", mode), n=res["op"] + 1)
+        ctx.count("longrun", ("fail", mode, variant, timing), n=res["op"] + 1)
         ctx.fail("longrun", dict(case, failing_op=res["op"]), res["what"])
 
 
 def shard_longrun(ctx, spec):
-    seed, n_ops, mode = spec
-    run_longrun(ctx, seed, n_ops, mode)
+    run_longrun(ctx, *spec)
 
 
 # --------------------------------------------------------------------------
@@ -1454,21 +1750,35 @@ def corpus_scenarios():
 def run(ctx):
     rng = ctx.sub_rng("c14")
     run_scenarios(ctx, "corpus", corpus_scenarios())
-    core.run_shards(ctx, "harness.c14", "shard_deferred", list(range(KINDS)))
-    core.run_shards(ctx, "harness.c14", "shard_reentrant",
-                    [(w, i, 8) for w in ("reentrant", "stop", "pump") for i in range(8)])
-    run_scenarios(ctx, "grid", grid_scenarios(ctx, rng))
     lr_seed = ctx.sub_rng("c14-longrun").randrange(1 << 30)
+    # the process's task manager is TaskManager itself / derived over 1..3 levels / with mix-ins,
+    # created before / after the first installs; each in its own fresh interpreter
+    variants = [(lr_seed + 100 + i, 600 if ctx.quick else 6000, "once" if (i + j) % 3 else "run", v, t)
+                for i, v in enumerate(MANAGERS) for j, t in enumerate(("before", "after"))]
+    # everything that is sharded goes through ONE pool (long jobs first), so that the wall time is
+    # the CPU time over the cores and not a sum of barriers
+    jobs = []
     if ctx.quick:
-        run_longrun(ctx, lr_seed, LONGRUN_OPS, "once")
-        core.run_shards(ctx, "harness.c14", "shard_random", [("q%d" % i, 25, 200) for i in range(16)])
-        run_dfs(ctx, 6, last_adv=True)
+        jobs += [("shard_longrun", (lr_seed, LONGRUN_OPS, "once", "sub1", "after"))]
+        jobs += [("shard_dfs", sp) for sp in dfs_specs(ctx, 5)]
+        jobs += [("shard_random", ("q%d" % i, 25, 200)) for i in range(16)]
     else:
-        core.run_shards(ctx, "harness.c14", "shard_longrun",
-                        [(lr_seed + i, LONGRUN_OPS * (1 + i % 2), "once") for i in range(4)]
-                        + [(lr_seed + 10 + i, LONGRUN_OPS, "run") for i in range(3)])
-        core.run_shards(ctx, "harness.c14", "shard_random", [("t%d" % i, 150, 200) for i in range(64)])
-        run_dfs(ctx, 7, last_adv=True)
+        jobs += [("shard_longrun", (lr_seed + i, LONGRUN_OPS * (1 + i % 2), "once", MANAGERS[i % 4],
+                                    ("before", "after")[i % 2])) for i in range(4)]
+        jobs += [("shard_longrun", (lr_seed + 10 + i, LONGRUN_OPS, "run", MANAGERS[4 + i], "before"))
+                 for i in range(3)]
+        jobs += [("shard_dfs", sp) for sp in dfs_specs(ctx, 7, last_adv=True)]
+        jobs += [("shard_random", ("t%d" % i, 150, 200)) for i in range(64)]
+    jobs += [("shard_grid", (i, 4)) for i in range(4)]
+    jobs += [("shard_deferred", k) for k in range(KINDS)]
+    jobs += [("shard_reentrant", (w, i, 8)) for w in ("reentrant", "stop", "pump", "premgr") for i in range(8)]
+    jobs += [("shard_longrun", v) for v in variants]
+    core.run_shards(ctx, "harness.c14", "shard_any", jobs)
+
+
+def shard_grid(ctx, spec):
+    i, n = spec
+    run_scenarios(ctx, "grid", grid_scenarios(ctx, ctx.sub_rng("c14"))[i::n])
 
 
 def search(ctx):
@@ -1493,11 +1803,12 @@ def replay(ctx, payload):
     if not scn:
         raise core.Infra("nothing to replay")
     if scn.get("stream") == "longrun":
-        run_longrun(ctx, scn["seed"], scn["n_ops"], scn["mode"])
+        run_longrun(ctx, scn["seed"], scn["n_ops"], scn["mode"], scn.get("manager", "plain"),
+                    scn.get("created", "before").split()[0])
         return
     run_scenarios(ctx, "replay", [scn])
 
 
 if __name__ == "__main__":
-    if len(sys.argv) == 5 and sys.argv[1] == "longrun":
-        longrun_child(int(sys.argv[2]), int(sys.argv[3]), sys.argv[4])
+    if len(sys.argv) >= 5 and sys.argv[1] == "longrun":
+        longrun_child(int(sys.argv[2]), int(sys.argv[3]), sys.argv[4], *sys.argv[5:7])
